@@ -75,6 +75,15 @@ func refEncode(v uint32) []byte {
 
 var c15Tails = [][]byte{nil, {0x00}, {0xff}, {0x80}}
 
+// c15LongTails: what follows the integer when it sits in the middle of a
+// body (a decoder may take another path when a machine word or more of
+// data remains).
+var c15LongTails = [][]byte{
+	{0, 0, 0, 0, 0, 0, 0, 0},
+	{0xff, 0xff, 0xff, 0xff, 0xff, 0xff, 0xff, 0xff, 0xff},
+	{1, 0, 0x80, 0x7f, 1, 0, 0x80, 0x7f, 1, 0, 0x80, 0x7f, 1, 0, 0x80, 0x7f, 1},
+}
+
 // c15Value checks one value; a panic of the library is a finding.
 func c15Value(v uint32) (f *core.Finding) {
 	res := guarded(0, func() { f = c15ValueRaw(v) })
@@ -94,6 +103,14 @@ func c15ValueRaw(v uint32) *core.Finding {
 	}
 	if width != len(want) {
 		return &core.Finding{Class: "encode-width", Detail: fmt.Sprintf("value %d: width()=%d, encoding has %d bytes", v, width, len(want))}
+	}
+	for ti, tail := range c15LongTails {
+		var arr [24]byte
+		data := append(append(arr[:0], want...), tail...)
+		got, adv, err := mq.VerifVbintGet(data)
+		if err != nil || got != uint(v) || adv != len(want) {
+			return &core.Finding{Class: "decode-mem-exact-long-tail", Detail: fmt.Sprintf("in-memory decode of % x (value %d followed by %d more bytes, tail %d): got value %d advance %d err %v, want value %d advance %d", data, v, len(tail), ti, got, adv, err, v, len(want))}
+		}
 	}
 	for ti, tail := range c15Tails {
 		data := append(append(make([]byte, 0, 8), want...), tail...)
@@ -121,6 +138,25 @@ func c15String(b []byte) (f *core.Finding) {
 }
 
 func c15StringRaw(b []byte) *core.Finding {
+	// the string followed by more data, in memory (the reference decides
+	// anew what that data means: a tail may continue the integer)
+	for _, tail := range c15LongTails {
+		var arr [24]byte
+		data := append(append(arr[:0], b...), tail...)
+		wv, wn, wok := refDecode(data)
+		gv, adv, gerr := mq.VerifVbintGet(data)
+		minimal := wok && bytes.Equal(refEncode(wv), data[:wn])
+		if wok && !minimal {
+			continue // a non-minimal form: whether accepted is not said
+		}
+		if (gerr == nil) != wok {
+			return &core.Finding{Class: "mem-accept-" + fmt.Sprint(gerr == nil) + "-more-data-follows", Sig: map[string]string{"decoder": "memory", "kind": "more-data-follows"},
+				Detail: fmt.Sprintf("in-memory decoder on % x (the string % x followed by %d more bytes): accepted=%v (value %d advance %d err %v); reference accepted=%v", data, b, len(tail), gerr == nil, gv, adv, gerr, wok)}
+		}
+		if wok && (gv != uint(wv) || adv != wn) {
+			return &core.Finding{Class: "mem-value-more-data-follows", Detail: fmt.Sprintf("in-memory decoder on % x: value %d advance %d, reference value %d in %d bytes", data, gv, adv, wv, wn)}
+		}
+	}
 	wv, wn, wok := refDecode(b)
 	gv, adv, gerr := mq.VerifVbintGet(b)
 	r := &env.Reader{Data: b}
